@@ -136,6 +136,25 @@ def write_cfg(path, spec="TSpec", post="Accepted", constants=None, invariants=()
     return path
 
 
+def _joined_tuples(out, prefix):
+    """TLC wraps printed values longer than ~80 characters over several lines: re-join every printed tuple that starts with `prefix`"""
+    res, cur = [], None
+    for ln in out.splitlines():
+        if cur is None:
+            if ln.startswith(prefix):
+                cur = ln
+            else:
+                continue
+        else:
+            cur += " " + ln.strip()
+        if cur.rstrip().endswith(">>") and cur.count("<<") == cur.count(">>"):
+            res.append(re.sub(r"\s+", " ", cur.strip()))
+            cur = None
+    if cur is not None:
+        res.append(re.sub(r"\s+", " ", cur.strip()))
+    return res
+
+
 _RE_REJECT = re.compile(r'^<<"REJECT", (?:"([^"]*)"|(-?\d+)), "([^"]*)"(?:, (.*))?>>$')
 
 
@@ -175,8 +194,10 @@ def validate_traces(ctx, module, records, *, batch=2000, cfg=None, constants=Non
             ctx.cov["states"] += res.distinct
             ctx.cov["transitions"] += res.generated
             nrej = 0
-            for ln in res.out.splitlines():
+            for ln in _joined_tuples(res.out, '<<"REJECT"'):
                 m = _RE_REJECT.match(ln)
+                if m is None:
+                    raise MachineryFailure("unparsable REJECT line printed by %s: %r" % (module, ln[:300]))
                 if m:
                     rid = m.group(1) if m.group(1) is not None else int(m.group(2))
                     rejects.setdefault(rid, m.group(3) + ((" " + m.group(4)) if m.group(4) else ""))
